@@ -610,3 +610,51 @@ func FuncBodyAt(file *ast.File, pos token.Pos) *ast.BlockStmt {
 	}
 	return nil
 }
+
+// ExpandConds inlines, in each conjunct, a top-level call of a same-package niladic one-line helper
+// (`if !b.batchReady() { return }` with `batchReady() bool { return count > 0 && (…) }`) and splits the
+// result into conjuncts again, so that the helper's conjuncts are judged one by one like those of a
+// condition written in place.
+func (g *GuardEval) ExpandConds(conds []Cond) []Cond {
+	if g == nil || g.Inline == nil || g.Pkg == nil {
+		return conds
+	}
+	out := conds
+	for round := 0; round < 3; round++ {
+		changed := false
+		var next []Cond
+		for _, c := range out {
+			e := c.Expr
+			for {
+				p, ok := e.(*ast.ParenExpr)
+				if !ok {
+					break
+				}
+				e = p.X
+			}
+			call, ok := e.(*ast.CallExpr)
+			if ok && len(call.Args) == 0 {
+				var obj types.Object
+				switch f := call.Fun.(type) {
+				case *ast.SelectorExpr:
+					obj = g.Pkg.TypesInfo.Uses[f.Sel]
+				case *ast.Ident:
+					obj = g.Pkg.TypesInfo.Uses[f]
+				}
+				if fn, isFn := obj.(*types.Func); isFn {
+					if body := g.Inline(fn); body != nil {
+						next = append(next, splitCond(Cond{Expr: body, Neg: c.Neg, FromExit: c.FromExit})...)
+						changed = true
+						continue
+					}
+				}
+			}
+			next = append(next, c)
+		}
+		out = next
+		if !changed {
+			break
+		}
+	}
+	return out
+}
